@@ -38,6 +38,8 @@ def run(chk):
             rnd = mem.random_scripts(chk.rng, 1000, 300, "ptr")
         vlib.run_scripts(chk, mem, c_exe, m_exe, rnd, mem.oracle)
         search_near(chk, c_exe, m_exe)
+    from areas import mem_tie
+    mem_tie.tie_run(chk)
     return chk.finish()
 
 
